@@ -376,21 +376,25 @@ Proof.
   split; [reflexivity|].
   intros u Eu s2 d' I2 P2 SW. inversion Eu; subst u; clear Eu.
   assert (Dd : DocInv (clk s2) d) by apply P2.
-  destruct (store_write_put _ _ _ _ _ b eq_refl eq_refl SW) as (cl & cur' & Ed').
+  match type of SW with store_write _ _ _ _ ?uu _ = _ => set (u := uu) in * end.
+  assert (Hh : s_hist (u_sync u) = R (N.succ (cur_gen d)) (cur_gen d) deleted
+                                      (match b with Some x => x | None => 0 end) :: hist_of d) by reflexivity.
+  apply (store_write_put _ _ _ _ _ b) in SW; [|reflexivity|reflexivity].
+  destruct SW as (cl & cur' & Ed').
   assert (DO : DocInv (N.succ (clk s2)) d' /\ own d' = true).
   { subst d'. apply apply_upd_DocInv; try lia.
     - destruct b; cbn; congruence.
     - reflexivity.
-    - cbn. eauto.
-    - cbn. rewrite cur_gen_hist. apply chain_cons. eapply hist_chain; eauto.
-    - cbn. eexists _, _. split; [reflexivity|]. unfold ImportInv.rev_crc. destruct b; reflexivity. }
+    - subst u. cbn. eauto.
+    - rewrite Hh, cur_gen_hist. apply chain_cons. eapply hist_chain; eauto.
+    - rewrite Hh. eexists _, _. split; [reflexivity|]. unfold ImportInv.rev_crc. subst deleted. destruct b; reflexivity. }
   destruct DO as [Dd' Od'].
   split; [|split; [exact Od'|]].
   - apply commit_Inv0; auto.
     + apply I2.
     + subst d'. reflexivity.
     + rewrite pend_own by auto. lia.
-  - subst d'. rewrite bstate_apply_upd. destruct b; reflexivity.
+  - cbn [doc set_doc]. subst d'. rewrite bstate_apply_upd. destruct b; reflexivity.
 Qed.
 
 Lemma PMemOk_mono m s s' : PMemOk m None s -> mono s s' -> PMemOk m None s'.
@@ -416,6 +420,228 @@ Proof.
     intros _. cbn. auto.
   - inversion E; subst s' r; clear E. split; [exact R|]. split; [exact Mo|].
     destruct e; cbn; discriminate.
+Qed.
+
+(* ================= metadata-only rewrite (resync) ================= *)
+
+(* a write that keeps the xattrs (an SDK write, or the resync rewrite) under a fresh CAS *)
+Lemma keep_DocInv c d st' b' nc sy' :
+  DocInv c d -> c < nc -> st' <> Absent -> (st' <> Alive -> b' = 0) ->
+  match d_sync d, sy' with
+  | Some sy, Some sy2 => s_cas sy2 = s_cas sy /\ s_crc sy2 = s_crc sy /\ s_cv sy2 = s_cv sy /\ s_hist sy2 = s_hist sy
+  | None, None => True
+  | _, _ => False
+  end ->
+  forall mou', (d_sync d = None -> mou' = None) ->
+  DocInv nc (mkDoc st' b' nc sy' (d_vv d) mou').
+Proof.
+  intros D L NA B0 Hs mou' Hm. pose proof (di_cas _ _ _ _ D) as Cd. constructor; cbn.
+  - lia.
+  - congruence.
+  - intros _. lia.
+  - exact B0.
+  - intros E. subst sy'. destruct (d_sync d) as [sy|] eqn:Es; [contradiction|].
+    split; [apply (di_nosync _ _ _ _ D Es) | auto].
+  - intros sy2 E. subst sy'. destruct (d_sync d) as [sy|] eqn:Es; [|contradiction].
+    destruct Hs as (H1 & H2 & H3 & H4).
+    destruct (di_sync _ _ _ _ D _ eq_refl) as (A1 & (v & Ev & Hv) & A3 & (r & t & Eh & Hc) & A5).
+    rewrite H1, H2, H3, H4. split; [lia|]. split; [eauto|]. split; [auto|]. split; [eauto|]. intros X. lia.
+Qed.
+
+Lemma keep_pend c d st' nc sy' mou' :
+  DocInv c d -> DocInv nc (mkDoc st' (d_body d) nc sy' (d_vv d) mou') -> st' = d_st d ->
+  match d_sync d, sy' with
+  | Some sy, Some sy2 => s_crc sy2 = s_crc sy
+  | None, None => True
+  | _, _ => False
+  end ->
+  pend (mkDoc st' (d_body d) nc sy' (d_vv d) mou') <= pend d.
+Proof.
+  intros D D' -> Hs. unfold ImportInv.pend, ImportInv.importable.
+  assert (A : is_alive (mkDoc (d_st d) (d_body d) nc sy' (d_vv d) mou') = is_alive d) by reflexivity.
+  rewrite A.
+  destruct (d_sync d) as [sy|] eqn:Es; destruct sy' as [sy2|]; try contradiction.
+  - rewrite (own_crc crc delcrc _ _ sy2 D') by reflexivity.
+    rewrite (own_crc crc delcrc _ _ sy D) by auto.
+    assert (Bc : body_crc (mkDoc (d_st d) (d_body d) nc (Some sy2) (d_vv d) mou') = body_crc d) by reflexivity.
+    rewrite Bc, Hs. unfold has_sync. cbn. rewrite Es. lia.
+  - unfold ImportInv.own, has_sync. cbn. rewrite Es. lia.
+Qed.
+
+Definition TMemOk (m : unit) (pv : option prev) (s : state) : Prop := True.
+
+Lemma meta_cb_ok : forall m pv s, Inv s -> TMemOk m pv s -> PrevOk s (the_prev pv s) ->
+  forall s1 r m', meta_cb m s (the_prev pv s) = (s1, r, m') ->
+  Inv s1 /\ mono s s1 /\ TMemOk m' None s1 /\
+  (forall u, r = CbWrite u -> WriteSpec crc delcrc Inv (the_prev pv s) u).
+Proof.
+  intros m pv s HI _ HP s1 r m' E. set (p := the_prev pv s) in *. set (d := p_doc p) in *.
+  unfold meta_cb in E. fold d in E.
+  destruct (is_alive d) eqn:A; cbn [negb] in E;
+    [|inversion E; subst; split; [exact HI|split; [apply mono_refl|split; [exact I|intros; discriminate]]]].
+  destruct (d_sync d) as [sy|] eqn:Es;
+    [|inversion E; subst; split; [exact HI|split; [apply mono_refl|split; [exact I|intros; discriminate]]]].
+  inversion E; subst s1 r m'; clear E.
+  split; [apply Inv_set_nseq; exact HI|]. split; [apply mono_set_nseq|]. split; [exact I|].
+  intros u Eu s2 d' I2 P2 SW. inversion Eu; subst u; clear Eu.
+  assert (Dd : DocInv (clk s2) d) by apply P2.
+  assert (St : d_st d = Alive) by (apply is_alive_true; auto).
+  assert (NZ : d_cas d <> 0).
+  { pose proof (di_pos _ _ _ _ Dd). rewrite St in H. assert (0 < d_cas d) by (apply H; congruence). lia. }
+  match type of SW with store_write _ _ _ _ ?uu _ = _ => set (u := uu) in * end.
+  destruct (store_write_same_doc s2 p u d' I2 P2) as [Ecur Ed']; auto.
+  - fold d. rewrite A. reflexivity.
+  - fold d in Ed'. rewrite St in Ed'. clear SW.
+    destruct I2 as [[Dc Fc Cc] Wc]. rewrite Ecur in Dc, Cc, Wc. fold d in Dc, Cc, Wc.
+    assert (Ed2 : d' = mkDoc Alive (d_body d) (N.succ (clk s2))
+                         (Some (mkSync (s_cas sy) (s_crc sy) (s_cv sy) (s_hist sy) (N.succ (nseq s))))
+                         (d_vv d) (Some (mkMou (N.succ (clk s2)) (mou_pcas d)))) by (subst d'; reflexivity).
+    assert (Dd' : DocInv (N.succ (clk s2)) d').
+    { rewrite Ed2. eapply keep_DocInv; eauto; try lia; try congruence.
+      rewrite Es. cbn. auto. }
+    assert (Pd : pend d' <= pend d).
+    { rewrite Ed2. eapply keep_pend; eauto.
+      - rewrite <- Ed2. exact Dd'.
+      - rewrite Es. reflexivity. }
+    split.
+    + apply commit_Inv0; auto.
+      * constructor; rewrite ?Ecur; auto.
+      * rewrite Ed2. reflexivity.
+      * rewrite Ecur. exact Pd.
+    + cbn [wb set_doc doc]. rewrite Wc, Ed2. unfold bstate. cbn. rewrite St. reflexivity.
+Qed.
+
+Lemma TMemOk_mono m s s' : TMemOk m None s -> mono s s' -> TMemOk m None s'.
+Proof. auto. Qed.
+
+Lemma gw_meta_ok s : Inv s -> forall s' r, gw_meta crc delcrc fire s = (s', r) -> Inv s' /\ mono s s'.
+Proof.
+  intros HI s' r E. unfold gw_meta in E.
+  destruct (upd_loop crc delcrc fire 6 meta_cb tt None s) as [s1 lr] eqn:EL.
+  eapply (upd_loop_ok crc delcrc fire fire_ok _ _ TMemOk Inv TMemOk_mono meta_cb_ok) in EL;
+    [| exact HI | exact I | intros p Ep; discriminate].
+  destruct EL as [Mo R]. inversion E; subst. split; auto. destruct lr; auto.
+Qed.
+
+(* ================= read and feed ================= *)
+
+Lemma gw_read_ok s : Inv s -> forall s' r, gw_read true crc delcrc fire s = (s', r) -> Inv s' /\ mono s s'.
+Proof.
+  intros HI s' r E. unfold gw_read in E.
+  destruct (d_st (doc s)) eqn:St; [inversion E; subst; split; auto using mono_refl| |];
+  (destruct (is_tomb (doc s) && no_xattrs (doc s)); [inversion E; subst; split; auto using mono_refl|];
+   destruct (doc_is_sg_write crc delcrc (doc s) (raw_of (doc s))); [inversion E; subst; split; auto using mono_refl|];
+   destruct (import_run true crc delcrc fire false (negb (is_alive (doc s))) (doc s) (raw_of (doc s)) s) as [s1 ir] eqn:EI;
+   destruct (import_run_ok false _ (doc s) _ s HI (Snap_cur crc delcrc s (inv_doc _ _ _ (proj1 HI))) eq_refl eq_refl _ _ EI)
+     as (I1 & M1 & _);
+   destruct ir; inversion E; subst; auto).
+Qed.
+
+Lemma nth_Snap s k : Inv s -> d_st (nth k (evs s) absent_doc) <> Absent -> Snap s (nth k (evs s) absent_doc).
+Proof.
+  intros HI NA. destruct (Nat.lt_ge_cases k (length (evs s))) as [L|G].
+  - pose proof (inv_evs _ _ _ (proj1 HI)) as F. rewrite Forall_forall in F. apply F. apply nth_In; auto.
+  - rewrite nth_overflow in NA by lia. cbn in NA. congruence.
+Qed.
+
+Lemma gw_feed_ok k s : Inv s -> forall s' r, gw_feed true crc delcrc fire k s = (s', r) -> Inv s' /\ mono s s'.
+Proof.
+  intros HI s' r E. unfold gw_feed in E.
+  set (ev := nth (N.to_nat k) (evs s) absent_doc) in *.
+  assert (Triv : forall r0, (s, r0) = (s', r) -> Inv s' /\ mono s s')
+    by (intros r0 X; inversion X; subst; split; auto using mono_refl).
+  assert (Run : forall isdel, isdel = negb (is_alive ev) -> d_st ev <> Absent ->
+     (fst (import_run true crc delcrc fire true isdel ev (raw_of ev) s), ROk) = (s', r) -> Inv s' /\ mono s s').
+  { intros isdel Ei NA X.
+    destruct (import_run true crc delcrc fire true isdel ev (raw_of ev) s) as [s1 ir] eqn:EI.
+    destruct (import_run_ok true isdel ev _ s HI (nth_Snap s _ HI NA) eq_refl Ei _ _ EI) as (I1 & M1 & _).
+    inversion X; subst; auto. }
+  destruct (d_st ev) eqn:St; [eapply Triv; eauto| |];
+  (destruct (is_tomb ev && no_xattrs ev); [eapply Triv; eauto|];
+   destruct (d_sync ev) as [sy|];
+   [destruct (sd_is_sg_write sy (d_cas ev) (body_crc ev) (d_vv ev)); [eapply Triv; eauto|];
+    eapply Run; eauto; [unfold is_tomb, is_alive; rewrite St; reflexivity | congruence]
+   |]).
+  - cbn [is_tomb] in E. unfold is_tomb in E. rewrite St in E. cbn in E.
+    eapply Run; eauto; [unfold is_alive; rewrite St; reflexivity | congruence].
+  - unfold is_tomb in E. rewrite St in E. cbn in E. eapply Triv; eauto.
+Qed.
+
+(* ================= external operations ================= *)
+
+Lemma ext_set_ok s b : Inv s -> Inv (ext_set s b) /\ mono s (ext_set s b).
+Proof.
+  intros [[D F C] W]. unfold ext_set. split.
+  - set (nc := N.succ (clk s)).
+    assert (D' : DocInv nc (match d_st (doc s) with
+                            | Alive => mkDoc Alive b nc (d_sync (doc s)) (d_vv (doc s)) (d_mou (doc s))
+                            | _ => mkDoc Alive b nc None None None end)).
+    { assert (Cl : DocInv nc (mkDoc Alive b nc None None None)).
+      { constructor; cbn; try lia; try congruence; auto. }
+      destruct (d_st (doc s)) eqn:St; auto.
+      eapply keep_DocInv; eauto; try congruence.
+      - subst nc; lia.
+      - destruct (d_sync (doc s)); auto.
+      - intros E. apply (di_nosync _ _ _ _ D E). }
+    split; [constructor|]; cbn.
+    + exact D'.
+    + eapply Forall_impl; [|exact F]. intros e [De Oe]. split; cbn.
+      * eapply DocInv_le; eauto. lia.
+      * right. pose proof (di_cas _ _ _ _ De).
+        destruct (d_st (doc s)); cbn; lia.
+    + match goal with |- _ + pend ?d <= _ => pose proof (pend_le1 d) end. lia.
+    + destruct (d_st (doc s)); reflexivity.
+  - repeat split; cbn; try lia. right. destruct (d_st (doc s)); cbn; lia.
+Qed.
+
+Lemma ext_del_ok s : Inv s -> forall s' r, ext_del s = (s', r) -> Inv s' /\ mono s s'.
+Proof.
+  intros HI s' r E. unfold ext_del in E.
+  destruct (d_st (doc s)) eqn:St; [inversion E; subst; split; auto using mono_refl| |];
+  (destruct HI as [[D F C] W]; inversion E; subst s' r; clear E; split;
+   [ assert (D' : DocInv (N.succ (clk s)) (mkDoc Tomb 0 (N.succ (clk s)) (d_sync (doc s)) (d_vv (doc s)) (d_mou (doc s))));
+     [ eapply keep_DocInv; eauto; try congruence; try lia;
+       [destruct (d_sync (doc s)); auto | intros X; apply (di_nosync _ _ _ _ D X)] |];
+     split; [constructor|]; cbn;
+     [ exact D'
+     | eapply Forall_impl; [|exact F]; intros e [De Oe]; split; cbn;
+       [eapply DocInv_le; eauto; lia | right; pose proof (di_cas _ _ _ _ De); lia]
+     | match goal with |- _ + pend ?d <= _ => pose proof (pend_le1 d) end; lia
+     | reflexivity ]
+   | repeat split; cbn; try lia ]).
+Qed.
+
+Lemma ext_touch_ok s : Inv s -> forall s' r, ext_touch s = (s', r) -> Inv s' /\ mono s s'.
+Proof.
+  intros HI s' r E. unfold ext_touch in E.
+  destruct (d_st (doc s)) eqn:St; try (inversion E; subst; split; auto using mono_refl; fail).
+  destruct HI as [[D F C] W]. inversion E; subst s' r; clear E.
+  set (d' := mkDoc Alive (d_body (doc s)) (N.succ (clk s)) (d_sync (doc s)) (d_vv (doc s)) (d_mou (doc s))).
+  assert (D' : DocInv (N.succ (clk s)) d').
+  { eapply keep_DocInv; eauto; try congruence; try lia.
+    - destruct (d_sync (doc s)); auto.
+    - intros X; apply (di_nosync _ _ _ _ D X). }
+  assert (P : pend d' <= pend (doc s)).
+  { eapply keep_pend; eauto. destruct (d_sync (doc s)); auto. }
+  split.
+  - split; [apply commit_Inv0; auto; [constructor; auto]|].
+    cbn. rewrite W. unfold bstate. cbn. rewrite St. reflexivity.
+  - apply mono_set_doc. reflexivity.
+Qed.
+
+Lemma simple_step_ok o s : Inv s ->
+  forall s' r, simple_step true crc delcrc fire o s = (s', r) -> Inv s' /\ mono s s'.
+Proof.
+  intros HI s' r E. destruct o; cbn [simple_step] in E.
+  - inversion E; subst. apply ext_set_ok; auto.
+  - eapply ext_del_ok; eauto.
+  - eapply ext_touch_ok; eauto.
+  - destruct (gw_put_ok (Some b) s HI _ _ E) as (A & B & _). auto.
+  - destruct (gw_put_ok None s HI _ _ E) as (A & B & _). auto.
+  - eapply gw_meta_ok; eauto.
+  - eapply gw_read_ok; eauto.
+  - eapply gw_feed_ok; eauto.
+  - inversion E; subst. split; auto using mono_refl.
 Qed.
 
 End Procs.
